@@ -17,6 +17,8 @@ from . import common
 SEEDS = st.one_of(st.integers(0, 50), st.integers(-10 ** 6, 10 ** 6), st.integers(2 ** 63, 2 ** 70),
                   st.sampled_from([0, 1, 42, -1, 2 ** 64, 2 ** 32 - 1, 10 ** 30]))
 
+INNER_SEED = 987654321012
+
 
 def reference_shuffle(base, seed):
     """independent statement of the documented algorithm: layers in sorted name order share one
@@ -55,6 +57,16 @@ def cases(draw, procs=False):
         for node in _case_nodes(m['tree']):
             if draw(st.integers(0, 5)) == 0:
                 node['falsy'] = True
+    nested = False
+    if not procs and draw(st.integers(0, 5)) == 0:
+        # a test that drives the test runner itself, in process, with a shuffle of its own
+        tests = [t for _, t in gen.iter_tests(spec) if t['k'] == 'pass']
+        if tests:
+            nested = True
+            t = tests[draw(st.integers(0, len(tests) - 1))]
+            t.setdefault('acts', {}).setdefault('body', []).append(
+                ['nested_run', draw(st.sampled_from([['--shuffle', '--shuffle-seed', str(INNER_SEED)],
+                                                     ['--shuffle', '--shuffle-seed', str(INNER_SEED), '-v']]))])
     names = [L['name'] for L in spec['layers']]
     # where the options come from: the command line, or (partly) the defaults a test script passes to run()
     opts = {'split': draw(st.sampled_from(['args', 'args', 'seed-in-defaults', 'all-in-defaults', 'shuffle-in-defaults'])),
@@ -62,6 +74,7 @@ def cases(draw, procs=False):
             'verbose': draw(st.integers(0, 1)), 'explicit': draw(st.sampled_from([True, True, False]))}
     if procs:
         opts['j'] = draw(st.sampled_from([None, 2, 3]))
+    opts['nested'] = nested
     return {'spec': spec, 'opts': opts}
 
 
@@ -151,8 +164,12 @@ class InProc(Part):
                 if ex != listed:
                     viol.append(('C11/run-differs-from-list', 'seed %d: executed %s, listed %s'
                                  % (seed, _sh(ex, spec), _sh(listed, spec))))
-                if parse.parse(run2.out).seeds != [seed]:
-                    viol.append(('C11/seed-not-reported/run', 'seed lines %s' % parse.parse(run2.out).seeds))
+                got_seeds = parse.parse(run2.out).seeds
+                if o.get('nested'):
+                    # (the inner runs report their own seed, inside the output of the test that started them)
+                    got_seeds = [x for x in got_seeds if x != INNER_SEED]
+                if got_seeds != [seed]:
+                    viol.append(('C11/seed-not-reported/run', 'seed lines %s, used %d' % (got_seeds, seed)))
             # with --layer filtering: retained layers keep their order
             if o['layer']:
                 run3, p3, listed3 = listing(spec, sh + common.args_of({'layer': o['layer']}), defaults=dflt)
@@ -181,6 +198,8 @@ class InProc(Part):
             labels.append('--layer')
         if not o['explicit']:
             labels.append('implicit-seed')
+        if o.get('nested'):
+            labels.append('nested-shuffled-run')
         return Outcome(viol, labels, big >= 2 and moved)
 
 
